@@ -63,6 +63,7 @@ CONSTANTS
   Transactional,   \* FALSE: SqliteWorkflowStore.store_stage ; TRUE: AtomicTransaction.store_stage in `with store.transaction()`
   UsePhase,        \* TRUE: the writer passes expected_phase = the status it read (phase-aware CAS)
   Retries,         \* retry_on_concurrency_error: re-runs after a ConcurrencyError (0 = the bare operation)
+  AddsOut,         \* writers that also add an outputs key of their own
   SetsStatus,      \* writers that also change the stage status
   SetsTask,        \* writers that also change the status of task "t1"
   AddsTask,        \* writers that also append a new task (upsert_task takes its INSERT path)
@@ -111,10 +112,10 @@ FirstPc == IF UseAux THEN "ra" ELSE "rs"          \* first statement of the (re-
 SavePc  == IF UseAux THEN "ua" ELSE "ex"          \* first parked statement of the save
 SavePcDml == IF UseAux THEN "ua" ELSE "us"        \* first DML of the save (takes the write lock)
 
-(* The caller's modification of the object it read: a context key and an output key of its own, *)
-(* optionally the stage status, the status of t1, a new task appended to stage.tasks.            *)
+(* The caller's modification of the object it read: a context key of its own, optionally an     *)
+(* outputs key, the stage status, the status of t1, a new task appended to stage.tasks.          *)
 Modify(w, o) ==
-  LET st1 == [o.st EXCEPT !.ctx = @ \cup {CtxKey(w)}, !.out = @ \cup {OutKey(w)},
+  LET st1 == [o.st EXCEPT !.ctx = @ \cup {CtxKey(w)}, !.out = IF w \in AddsOut THEN @ \cup {OutKey(w)} ELSE @,
                           !.status = IF w \in SetsStatus THEN StatusOf(w) ELSE @]
       tk1 == IF w \in SetsTask THEN [o.tk EXCEPT !["t1"].status = TStatusOf(w)] ELSE o.tk
       add == w \in AddsTask /\ NewTask(w) \notin DOMAIN o.tk
